@@ -152,7 +152,18 @@ def h_requires_grad_(a, requires_grad=True):
 
 @handler("__get__:requires_grad")
 def h_get_rg(a):
-    return a._rg
+    if a._rg:
+        return True
+    c = cx.CUR
+    if c is None or not c.env.get("track_grad"):
+        return False
+    # a computed tensor requires grad iff some element still depends on a live autograd leaf
+    leaf = c.env.get("leafvars") or set()
+    live = leaf - c.stopgrad
+    for x in a._p.reshape(-1):
+        if isinstance(x, T) and x.sort == "R" and (tm.free_vars(x) & live):
+            return True
+    return False
 
 
 @handler("__set__:requires_grad")
